@@ -121,6 +121,22 @@ pub fn build(
     first_base: Option<&Region>,
     vftable_functions: Option<Vec<Function>>,
 ) -> anyhow::Result<(Option<TypeVftable>, Option<Region>)> {
+    // Whether this type gets a vftable pointer of its own depends on its first base: wait
+    // until that base has been resolved instead of guessing that it has no vftable.
+    if let Some(Region {
+        type_ref: Type::Raw(base_path),
+        ..
+    }) = first_base
+    {
+        if semantic
+            .type_registry
+            .get(base_path)
+            .is_some_and(|base| !base.is_resolved())
+        {
+            return Ok((None, None));
+        }
+    }
+
     if let Some(vftable_functions) = vftable_functions {
         // There are functions defined for this vftable.
         let vftable_item = build_type(
